@@ -339,7 +339,20 @@ def _run_render(pid: str, tier: str, seed: int, spec: dict, scale: float = 1.0, 
 
 PROPS["C12"] = {"theorems": ["C12_total", "C12_totalL", "C12_mirror_index", "C12_mirror_keys", "C12_mirror_union",
                              "C12_mirror_set", "C12_mirror_preds", "C12_next_level", "C12_next_level_map",
-                             "C12_message_total"],
+                             "C12_message_total", "src_render", "src_pred_messages_cover", "src_pred_messages_only", "src_message_renderer_pinned"],
+                "modules": ["KodaModel.Properties.C12", "KodaModel.Properties.C12Src"],
+                "level_note": "tied to the source: to_serializable_errs (serialization/errors.py) is translated on every "
+                              "run (Generated/RenderSrc.lean: the isinstance chain over the error classes, the validator "
+                              "classes and destination types tested in the coercion arm, the shape each arm returns; "
+                              "message texts abstracted) and src_render proves the interpreted chain (KodaModel/PyRender.lean) "
+                              "equal to the model's `render` for every error node, every assignment of validator classes and "
+                              "every next_level, under the stated well-formedness of coercion errors (a UUID / Decimal / date "
+                              "/ datetime validator's coercion error does not name list or tuple as destination); "
+                              "src_pred_messages_cover / _only: pred_to_err_message has an arm for exactly the predicate "
+                              "classes the library defines (Generated/PredSrc.lean) and ends in TypeError.  The C12_* theorems "
+                              "are about `render` / `renderFull` / `messageLines`; the message renderer of signature.py is "
+                              "hand-modelled (messageLines; correspondence) and its source text is pinned "
+                              "(src_message_renderer_pinned)",
                 "run": _run_render,
                 "rule": "every Invalid produced by the scalar / collection / record / wrapper / mixed validator streams on "
                         "their conforming, near-miss and hostile inputs is rendered by the real to_serializable_errs (default "
